@@ -163,3 +163,24 @@ Proof.
   vm_compute. repeat split; try reflexivity; try (intros; discriminate).
   repeat constructor; discriminate.
 Qed.
+
+(** a non-canonical but decodable stream (node 1 = the first two successors of node 0,
+    written with the blocks [2;3] that reach the end of the referenced list instead of the
+    compressor's [2]): every sequential path and the denotational random access return the
+    lists, random access through the index-level [MaskedIter] fails ([blocks[2]] out of
+    bounds when [Succ::next] pre-fetches the copied node after the last one) *)
+Example C03_noncanonical_stream :
+  let p := mkParams 3 (Some 2) 2 in
+  let cs := mkCodes Gamma Unary Gamma Gamma (Zeta 3) in
+  let recs := [ node_fields p 0 [1;2;3;4;5] 0 [];
+                [(KOutdeg, 2); (KRef, 1); (KBlockCount, 2); (KBlock, 2); (KBlock, 2)] ] in
+  let s := graph_bits true cs recs in
+  let offs := prefix_sums 0 (node_bitlens true cs recs) in
+  acc_iter_from true cs p offs s 0 = Some [[1;2;3;4;5]; [1;2]]
+  /\ acc_next_successors true cs p 2 s = Some [[1;2;3;4;5]; [1;2]]
+  /\ acc_ra true cs p offs s 1 = Some [1;2]
+  /\ acc_ra_merge true cs p offs s 1 = Some [1;2]
+  /\ acc_ra_sm true true cs p offs s 0 = Some [1;2;3;4;5]
+  /\ acc_ra_sm true true cs p offs s 1 = None
+  /\ acc_ra_sm false true cs p offs s 1 = None.
+Proof. vm_compute. repeat split; reflexivity. Qed.
